@@ -1117,6 +1117,83 @@ fn string_case(run: &mut Run, id: &str, r: &mut Rng) {
     run.case(id, format!("CStr {} {}", k, cbytes(&s)), format!("OStr {}", b.coq()));
 }
 
+// ------------------------------------------------------------------ the Refs codec
+
+const REF_NAMES: &[&[u8]] = &[
+    b"refs/heads/a", b"refs/heads/b", b"refs/heads/master", b"refs/tags/v1", b"refs/rad/sigrefs", b"a", b"HEAD",
+    b"refs/heads/\xc3\xa9", b"refs/heads/a.lock", b"refs//x", b"refs/heads/../x", b"", b"/a", b"a/", b"refs/heads/a b",
+    b"refs/heads/a~1", b"refs/heads/@{x}", b".hidden", b"refs/heads/x.", b"refs/heads/\x7f",
+];
+
+/// grammar-directed bytes for wire::deserialize::<Refs>: a few entries (names from a pool of
+/// valid and invalid ref names, in random order, duplicates likely) with occasional faults
+fn refs_bytes(r: &mut Rng) -> Vec<u8> {
+    let n = r.below(5) as usize;
+    let declared = match r.below(12) { 0 => n + 1, 1 => n.saturating_sub(1), _ => n };
+    let mut out = (declared as u16).to_be_bytes().to_vec();
+    let pool = if r.chance(2, 3) { &REF_NAMES[..5] } else { REF_NAMES };
+    for _ in 0..n {
+        let mut name = r.pick(pool).to_vec();
+        if r.chance(1, 25) && !name.is_empty() { let i = r.below(name.len() as u64) as usize; name[i] = *r.pick(&[0xffu8, 0xc0, 0x00, 0x20]); }
+        let l = if r.chance(1, 30) { name.len() as u8 + 1 } else { name.len() as u8 };
+        out.push(l);
+        out.extend(name);
+        out.extend_from_slice(&(if r.chance(1, 25) { *r.pick(&[0u16, 19, 21]) } else { 20u16 }).to_be_bytes());
+        let fill = r.below(4) as u8;
+        out.extend_from_slice(&[fill; 20]);
+    }
+    if r.chance(1, 20) { out.push(0); }
+    if r.chance(1, 20) && !out.is_empty() { let k = r.below(out.len() as u64) as usize; out.truncate(k); }
+    out
+}
+
+/// names that the decoder may query: a lenient walk over the entries
+fn refs_candidate_names(bs: &[u8]) -> Vec<Vec<u8>> {
+    let mut names = BTreeSet::new();
+    if bs.len() >= 2 {
+        let count = u16::from_be_bytes([bs[0], bs[1]]) as usize;
+        let mut i = 2;
+        for _ in 0..count {
+            if i >= bs.len() { break; }
+            let l = bs[i] as usize;
+            if i + 1 + l > bs.len() { break; }
+            let name = bs[i + 1..i + 1 + l].to_vec();
+            if let Ok(st) = String::from_utf8(name.clone()) {
+                if git::RefString::try_from(st).is_ok() {
+                    names.insert(name);
+                }
+            }
+            i += 1 + l + 22;
+        }
+    }
+    names.into_iter().collect()
+}
+
+fn refs_case(run: &mut Run, id: &str, bs: &[u8]) {
+    use radicle::storage::refs::Refs;
+    run.eval();
+    let names = refs_candidate_names(bs);
+    let input = format!("CRefs {} {}", cbytes(bs), clist(&names, |n| cbytes(n)));
+    match catch(AssertUnwindSafe(|| wire::deserialize::<Refs>(bs))) {
+        Err(p) => {
+            run.fail(id, "refs-decode-panic", format!("wire::deserialize::<Refs> panicked: {}", p), json!({"bytes": hex(bs)}));
+            run.case(id, input, "ORefs (RefsErr XOther)".into());
+        }
+        Ok(Err(e)) => {
+            let t = match &e { wire::Error::InvalidRefName(_) => "XInvalidRefName".to_string(), e => err_term(e) };
+            run.tally(&format!("r:err:{}", if matches!(e, wire::Error::InvalidRefName(_)) { "invalid-ref-name" } else { err_kind(&e) }));
+            run.case(id, input, format!("ORefs (RefsErr {})", t));
+        }
+        Ok(Ok(refs)) => {
+            let entries: Vec<(Vec<u8>, [u8; 20])> = refs.iter().map(|(k, v)| (k.as_str().as_bytes().to_vec(), oid_bytes(v))).collect();
+            let term = clist(&entries, |(k, v)| format!("({}, {})", cbytes(k), cbytes(v)));
+            run.case(id, input, format!("ORefs (RefsOk {})", term));
+            let same = catch(AssertUnwindSafe(|| wire::serialize(&refs))).map(|re| re == bs).unwrap_or(false);
+            run.tally(if same { "r:ok:reencodes-identically" } else { "r:ok:reencodes-DIFFERENTLY (known: the Refs codec is not canonical; not a message)" });
+        }
+    }
+}
+
 // ------------------------------------------------------------------ constants
 
 struct Consts {
@@ -1188,6 +1265,9 @@ fn main() {
          the re-encoding comparison is a real test; distinct by its first 64 bytes.",
     );
     run.preamble = "From HW Require Import model.WireVarint.".into();
+    // the Coq side is dominated by elaborating the byte-list literals: keep shards small so that
+    // a loaded machine does not push a shard over bin/check's per-shard timeout
+    run.shard_size(200);
     let seed = run.args.seed;
 
     // --- constants: regenerate coq/gen/ConstsWire.v and compare with what the model was built with
@@ -1219,24 +1299,37 @@ fn main() {
         }
     }
 
-    // --- the Refs codec of wire.rs (not part of any Message; observed, not judged): entries are
-    // collected into a BTreeMap, so unsorted or duplicate entries decode and re-encode differently
-    if run.args.only.is_none() {
-        let entry = |name: &[u8], fill: u8| { let mut v = vec![name.len() as u8]; v.extend_from_slice(name); v.extend_from_slice(&[0, 20]); v.extend_from_slice(&[fill; 20]); v };
-        let probes: Vec<(&str, Vec<u8>)> = vec![
-            ("sorted", [vec![0u8, 2], entry(b"refs/heads/a", 1), entry(b"refs/heads/b", 2)].concat()),
-            ("unsorted", [vec![0u8, 2], entry(b"refs/heads/b", 2), entry(b"refs/heads/a", 1)].concat()),
-            ("duplicate", [vec![0u8, 2], entry(b"refs/heads/a", 1), entry(b"refs/heads/a", 2)].concat()),
+    // --- r: the Refs codec of wire.rs (BTreeMap<RefString, Oid>; not part of any Message).
+    // Correspondence only: the codec is known not to be canonical (theorem
+    // C15_refs_codec_not_canonical, whose two witnesses are the first two fixed cases).
+    {
+        let fixed: Vec<Vec<(&[u8], u8)>> = vec![
+            vec![(b"refs/heads/b", 2), (b"refs/heads/a", 1)],
+            vec![(b"refs/heads/a", 1), (b"refs/heads/a", 2)],
+            vec![(b"refs/heads/a", 1), (b"refs/heads/b", 2)],
         ];
-        for (what, bs) in probes {
-            let verdict = match catch(AssertUnwindSafe(|| wire::deserialize::<radicle::storage::refs::Refs>(&bs).map(|r| wire::serialize(&r)))) {
-                Ok(Ok(re)) if re == bs => "decodes, re-encodes identically",
-                Ok(Ok(_)) => "decodes, re-encodes DIFFERENTLY",
-                Ok(Err(_)) => "rejected",
-                Err(_) => "panics",
-            };
-            run.tally(&format!("refs-codec:{}:{}", what, verdict));
-            run.note(format!("Refs codec (unused by Message) on {} entries: {}", what, verdict));
+        for (k, es) in fixed.iter().enumerate() {
+            let id = format!("r:fixed:{}", k);
+            if run.args.wants(&id) {
+                let mut bs = vec![0u8, es.len() as u8];
+                for (name, fill) in es {
+                    bs.push(name.len() as u8);
+                    bs.extend_from_slice(name);
+                    bs.extend_from_slice(&[0, 20]);
+                    bs.extend_from_slice(&[*fill; 20]);
+                }
+                refs_case(&mut run, &id, &bs);
+            }
+        }
+        let n = run.args.count(150, 1000);
+        for i in 0..n {
+            let id = format!("r:{}", i);
+            if !run.args.wants(&id) {
+                continue;
+            }
+            let mut r = Rng::for_case(seed, 6, i);
+            let bs = refs_bytes(&mut r);
+            refs_case(&mut run, &id, &bs);
         }
     }
 
@@ -1282,7 +1375,7 @@ fn main() {
     }
 
     // --- e/d: structured messages
-    let n = run.args.count(420, 4000);
+    let n = run.args.count(300, 1800);
     for i in 0..n {
         let (ide, idd) = (format!("e:{}", i), format!("d:{}", i));
         if !run.args.wants(&ide) && !run.args.wants(&idd) {
@@ -1316,7 +1409,7 @@ fn main() {
     }
 
     // --- q: the crate's own Arbitrary messages
-    let n = run.args.count(150, 1500);
+    let n = run.args.count(100, 300);
     for i in 0..n {
         let id = format!("q:{}", i);
         if !run.args.wants(&id) {
@@ -1334,7 +1427,7 @@ fn main() {
     }
 
     // --- m: mutations
-    let n = run.args.count(700, 8000);
+    let n = run.args.count(500, 3000);
     for i in 0..n {
         let id = format!("m:{}", i);
         if !run.args.wants(&id) {
@@ -1351,7 +1444,7 @@ fn main() {
     }
 
     // --- g: grammar-directed
-    let n = run.args.count(600, 6000);
+    let n = run.args.count(450, 3000);
     for i in 0..n {
         let id = format!("g:{}", i);
         if !run.args.wants(&id) {
@@ -1370,7 +1463,7 @@ fn main() {
     }
 
     // --- s: strings
-    let n = run.args.count(600, 6000);
+    let n = run.args.count(400, 3000);
     for i in 0..n {
         let id = format!("s:{}", i);
         if !run.args.wants(&id) {
